@@ -49,18 +49,22 @@ RULE = (
     'Histories generated as data, one Check per algorithm. Common part: model '
     'pred = x.w + b/2 with d in {1,2}, squared loss; a pool of 2-4 clients '
     'with 0-7 examples (x = k/16, |k|<=4; y = k/8, |k|<=16), dyadic initial '
-    'params, 3-6 rounds (quick) / 3-10 (thorough), every round a cohort of '
+    'params, 3-6 rounds (quick) / 3-10 (thorough) and rarely 1-2, every round a cohort of '
     '1-3 distinct pool clients (clients return) with fresh key seeds; '
     'hyper-parameters from small menus (optimizers sgd/momentum/adam with '
-    'step sizes 2^-j, batch sizes 2-4, 1-2 epochs, optional step limit). '
+    'step sizes 2^-j, batch sizes 2-4, 1-2 epochs, optional step limit); the '
+    'quick tier draws them from 3-9 fixed presets per algorithm that cover '
+    'every menu value and every (domains, window) pair (compiling a new '
+    'algorithm instance costs 50-100 rounds), the thorough tier also draws '
+    'free combinations. '
     'agnostic: 2-4 domains, window 1-3, domain lr in {1,1/2,1/8,1/64}, eg/none, '
     'initial weights incl. zero entries, initial window default/ones/with a '
-    'zero, every client holds examples of 1-2 "home" domains and one domain '
+    'zero, every client holds examples of 1-3 "home" domains and one domain '
     'may be used by nobody, so rounds that starve a domain are the norm. '
     'apfl: coefficient k/8, client lr in {2,1,1/4} (sgd/momentum/adam), '
     'rng-dependent loss optional. hypcluster: 2-4 clusters with distinct or '
     'duplicated (exact tie) initial params, server optimizer with state '
-    '(momentum/adam) or sgd. mimelite: clip norm in {2^-10,2^-3,1,2^10}, '
+    '(momentum/adam) or sgd. mimelite: clip norm in {2^-10,2^-3,1/4,2^10}, '
     'server lr in {1,1/2,2}, base sgd/momentum/adam. ignore_grads_haiku: 1-3 '
     'haiku modules with leaves from {w,b,s}, ignore-list a subset of the '
     '(module, name) pairs, 1-4 successive apply() calls with carried state, '
@@ -86,7 +90,7 @@ ASSUMPTIONS = [
     'arrays (a Python list with the default window hits an unrelated '
     'jnp.ones_like(list) error); probability-vector tolerance |sum-1| <= 1e-5; '
     'if the server params are non-finite after the last round the history is '
-    'extended by one more round with the same cohort, because NaN params only '
+    'extended by one more round with the whole pool as cohort, because NaN params only '
     'reach the domain weights one round later',
     'hypcluster: argmin is judged on float64 reference losses with tolerance '
     '1e-5 * (1 + S^2), S = max over examples of |w|.|x| + |b|/2 + |y| (float32 '
@@ -353,8 +357,8 @@ def run_agnostic(case):
       extra.add('weights_moved')
     if r == len(rounds) - 1 and not all_finite(state.params) and len(rounds) == len(case['rounds']):
       # NaN params only reach the domain weights in the next round: extend the
-      # history by one round with the same cohort.
-      rounds.append(rnd)
+      # history by one round with the whole pool as cohort.
+      rounds.append([[i, 0] for i in range(len(case['pool']))])
       extra.add('extended_after_non_finite_params')
     r += 1
   return sorted(extra)
@@ -598,7 +602,7 @@ MIME_OPT = [{'name': 'sgd', 'lr_exp': 0, 'momentum': 0},
             {'name': 'sgd', 'lr_exp': 2, 'momentum': 0},
             {'name': 'momentum', 'lr_exp': 1, 'momentum': 4},
             {'name': 'adam', 'lr_exp': 2, 'momentum': 0}]
-MIME_CLIP_EXP = [-10, -3, 0, 10]
+MIME_CLIP_EXP = [-10, -3, -2, 10]
 MIME_SERVER_LR = [1.0, 0.5, 2.0]
 
 
@@ -708,7 +712,7 @@ def mime_nontrivial(case, ls):
 # ---------------------------------------------------------- ignore_grads_haiku
 
 IG_SHAPES = {'w': (2,), 'b': (), 's': (1, 2)}
-IG_OPTS = ['sgd', 'momentum', 'nesterov', 'adam', 'adagrad', 'rmsprop']
+IG_OPTS = ['adam', 'momentum', 'sgd', 'nesterov', 'adagrad', 'rmsprop']
 IG_NAN, IG_INF = 1000, 1001
 
 
@@ -803,18 +807,19 @@ def ig_nontrivial(case, ls):
 def draw_pool(draw, d, npool, domains=0):
   pool = []
   used = list(range(domains))
-  if domains and draw(st.integers(0, 2)) == 0:
+  if domains and draw(st.sampled_from([False, False, True])):
     # one domain that no client ever has
     used.remove(draw(st.sampled_from(used)))
   for _ in range(npool):
-    n = draw(st.sampled_from([0, 1, 2, 3, 3, 4, 5, 7]))
+    # (Hypothesis favours the first element: keep the plain values in front)
+    n = draw(st.sampled_from([3, 2, 4, 0, 1, 5, 7, 3]))
     rows = draw(st.lists(st.integers(-4, 4), min_size=n * (d + 1), max_size=n * (d + 1)))
     ymul = draw(st.sampled_from([1, 2, 4]))
     for e in range(n):
       rows[e * (d + 1) + d] *= ymul
     client = {'rows': rows}
     if domains:
-      home = draw(st.lists(st.sampled_from(used), min_size=1, max_size=2, unique=True))
+      home = draw(st.lists(st.sampled_from(used), min_size=1, max_size=3, unique=True))
       client['dom'] = draw(st.lists(st.sampled_from(home), min_size=n, max_size=n))
     pool.append(client)
   if all(not c['rows'] for c in pool):
@@ -825,12 +830,12 @@ def draw_pool(draw, d, npool, domains=0):
 
 
 def draw_rounds(draw, tier, npool):
-  hi = 6 if tier == 'quick' else 10
-  nr = draw(st.sampled_from([1, 2]) if draw(st.integers(0, 9)) == 0 else st.integers(3, hi))
+  nr = draw(st.sampled_from([4, 3, 5, 6, 3, 4, 5, 6, 2, 1] if tier == 'quick'
+                           else [4, 3, 5, 6, 8, 10, 7, 9, 2, 1]))
   rounds = []
   for _ in range(nr):
-    members = draw(st.lists(st.integers(0, npool - 1), min_size=1, max_size=min(3, npool),
-                            unique=True))
+    k = min(npool, draw(st.sampled_from([2, 1, 3, 2])))
+    members = draw(st.lists(st.integers(0, npool - 1), min_size=k, max_size=k, unique=True))
     rounds.append([[i, draw(st.integers(0, 2 ** 20))] for i in members])
   return rounds
 
@@ -840,54 +845,111 @@ def draw_batch(draw):
           'steps': draw(st.sampled_from([None, None, 1, 3])), 'seed': draw(st.integers(0, 3))}
 
 
+def preset_batch(i):
+  return {'bs': [2, 3][i % 2], 'epochs': [1, 2][(i // 2) % 2],
+          'steps': [None, 3, None, 1][(i * 3) % 4], 'seed': i % 4}
+
+
+# Building an algorithm creates fresh jitted closures, and compiling them costs
+# 50-100x the price of a round.  The quick tier therefore draws the
+# hyper-parameters from a fixed list of presets (every menu value and every
+# (domains, window) pair occurs) so that a shard compiles each preset once and
+# spends its budget on histories; the thorough tier also draws free combinations.
+
+def _ag_preset(i):
+  return {'domains': [2, 3, 4][i % 3], 'window': [1, 2, 3, 1][(i // 3) % 4],
+          'dlr_exp': [0, 1, 3, 6][(i * 3 + 1) % 4], 'dalg': 'none' if i % 6 == 4 else 'eg',
+          'init_w': (i + i // 3) % 3,
+          'init_win': ['default', 'with_zero', 'ones'][(i + 2 * (i // 3)) % 3],
+          'copt': (i * 2 + 1) % 3, 'sopt': (i // 2) % 3,
+          'batch': preset_batch(i), 'dbs': [2, 4][(i // 3) % 2]}
+
+
+def _apfl_preset(i):
+  return {'copt': i % len(APFL_COPT), 'sopt': (i // 2) % 2,
+          'coef': [4, 0, 2, 8, 6, 1, 7, 4][i % 8], 'noisy': i % 3 == 1,
+          'batch': preset_batch(i + 1)}
+
+
+def _hyp_preset(i):
+  return {'copt': i % 3, 'sopt': [0, 1, 2][i % 3], 'mbs': [2, 4][(i // 2) % 2],
+          'buckets': [1, 2][i % 2], 'batch': preset_batch([2, 3, 5][i % 3])}
+
+
+def _mime_preset(i):
+  return {'opt': i % 4, 'clip': [1, 0, 2, 1, 2, 3][i % 6], 'slr': [0, 1, 2][i % 3],
+          'gbs': [2, 4][(i // 2) % 2], 'buckets': [1, 2][i % 2], 'batch': preset_batch(i + 3)}
+
+
+AG_PRESETS = [_ag_preset(i) for i in range(9)]
+APFL_PRESETS = [_apfl_preset(i) for i in range(7)]
+HYP_PRESETS = [_hyp_preset(i) for i in range(3)]
+MIME_PRESETS = [_mime_preset(i) for i in range(6)]
+
+
+def draw_hp(draw, tier, presets, free):
+  if tier == 'quick' or draw(st.booleans()):
+    return json.loads(json.dumps(draw(st.sampled_from(presets))))
+  return free(draw)
+
+
 def draw_common(draw, tier, domains=0):
-  d = draw(st.sampled_from([1, 2]))
-  npool = draw(st.sampled_from([2, 3, 3, 4]))
+  d = draw(st.sampled_from([2, 1]))
+  npool = draw(st.sampled_from([3, 2, 4, 3]))
   return {'d': d, 'pool': draw_pool(draw, d, npool, domains),
           'p0': draw(st.lists(st.integers(-16, 16), min_size=d + 1, max_size=d + 1)),
           'rounds': draw_rounds(draw, tier, npool)}
 
 
+def _ag_free(draw):
+  return {'domains': draw(st.sampled_from([2, 3, 4])), 'window': draw(st.sampled_from([1, 1, 2, 3])),
+          'dlr_exp': draw(st.sampled_from([0, 1, 3, 6])),
+          'dalg': draw(st.sampled_from(['eg', 'eg', 'eg', 'none'])),
+          'init_w': draw(st.integers(0, 2)),
+          'init_win': draw(st.sampled_from(['default', 'ones', 'with_zero'])),
+          'copt': draw(st.integers(0, len(AG_COPT) - 1)),
+          'sopt': draw(st.integers(0, len(AG_SOPT) - 1)),
+          'batch': draw_batch(draw), 'dbs': draw(st.sampled_from([2, 4]))}
+
+
 @st.composite
 def agnostic_cases(draw, tier):
-  domains = draw(st.sampled_from([2, 3, 4]))
-  hp = {'domains': domains, 'window': draw(st.sampled_from([1, 1, 2, 3])),
-        'dlr_exp': draw(st.sampled_from([0, 1, 3, 6])),
-        'dalg': draw(st.sampled_from(['eg', 'eg', 'eg', 'none'])),
-        'init_w': draw(st.integers(0, 2)),
-        'init_win': draw(st.sampled_from(['default', 'ones', 'with_zero'])),
-        'copt': draw(st.integers(0, len(AG_COPT) - 1)),
-        'sopt': draw(st.integers(0, len(AG_SOPT) - 1)),
-        'batch': draw_batch(draw), 'dbs': draw(st.sampled_from([2, 4]))}
+  hp = draw_hp(draw, tier, AG_PRESETS, _ag_free)
   case = {'alg': 'agnostic', 'hp': hp}
-  case.update(draw_common(draw, tier, domains))
+  case.update(draw_common(draw, tier, hp['domains']))
   return case
+
+
+def _apfl_free(draw):
+  return {'copt': draw(st.integers(0, len(APFL_COPT) - 1)),
+          'sopt': draw(st.integers(0, len(APFL_SOPT) - 1)),
+          'coef': draw(st.sampled_from([0, 1, 2, 4, 4, 6, 7, 8])),
+          'noisy': draw(st.booleans()), 'batch': draw_batch(draw)}
 
 
 @st.composite
 def apfl_cases(draw, tier):
-  hp = {'copt': draw(st.integers(0, len(APFL_COPT) - 1)),
-        'sopt': draw(st.integers(0, len(APFL_SOPT) - 1)),
-        'coef': draw(st.sampled_from([0, 1, 2, 4, 4, 6, 7, 8])),
-        'noisy': draw(st.booleans()), 'batch': draw_batch(draw)}
-  case = {'alg': 'apfl', 'hp': hp}
+  case = {'alg': 'apfl', 'hp': draw_hp(draw, tier, APFL_PRESETS, _apfl_free)}
   case.update(draw_common(draw, tier))
   return case
 
 
+def _hyp_free(draw):
+  return {'copt': draw(st.integers(0, len(HYP_COPT) - 1)),
+          'sopt': draw(st.sampled_from([0, 0, 1, 1, 2])),
+          'mbs': draw(st.sampled_from([2, 4])), 'buckets': draw(st.sampled_from([1, 2])),
+          'batch': draw_batch(draw)}
+
+
 @st.composite
 def hyp_cases(draw, tier):
-  hp = {'copt': draw(st.integers(0, len(HYP_COPT) - 1)),
-        'sopt': draw(st.sampled_from([0, 0, 1, 1, 2])),
-        'mbs': draw(st.sampled_from([2, 4])), 'buckets': draw(st.sampled_from([1, 2])),
-        'batch': draw_batch(draw)}
-  case = {'alg': 'hypcluster', 'hp': hp}
+  case = {'alg': 'hypcluster', 'hp': draw_hp(draw, tier, HYP_PRESETS, _hyp_free)}
   case.update(draw_common(draw, tier))
   d = case['d']
-  k = draw(st.sampled_from([2, 3, 4]))
+  k = draw(st.sampled_from([3, 2, 4]))
   clusters = [case.pop('p0')]
   while len(clusters) < k:
-    if draw(st.integers(0, 5)) == 0:
+    if draw(st.sampled_from([False, False, False, False, False, True])):
       clusters.append(list(draw(st.sampled_from(clusters))))   # exact tie
     else:
       clusters.append(draw(st.lists(st.integers(-16, 16), min_size=d + 1, max_size=d + 1)))
@@ -895,24 +957,27 @@ def hyp_cases(draw, tier):
   return case
 
 
+def _mime_free(draw):
+  return {'opt': draw(st.integers(0, len(MIME_OPT) - 1)),
+          'clip': draw(st.sampled_from([0, 1, 1, 2, 2, 3])),
+          'slr': draw(st.sampled_from([0, 0, 1, 2])),
+          'gbs': draw(st.sampled_from([2, 4])), 'buckets': draw(st.sampled_from([1, 2])),
+          'batch': draw_batch(draw)}
+
+
 @st.composite
 def mime_cases(draw, tier):
-  hp = {'opt': draw(st.integers(0, len(MIME_OPT) - 1)),
-        'clip': draw(st.sampled_from([0, 1, 1, 2, 2, 3])),
-        'slr': draw(st.sampled_from([0, 0, 1, 2])),
-        'gbs': draw(st.sampled_from([2, 4])), 'buckets': draw(st.sampled_from([1, 2])),
-        'batch': draw_batch(draw)}
-  case = {'alg': 'mimelite', 'hp': hp}
+  case = {'alg': 'mimelite', 'hp': draw_hp(draw, tier, MIME_PRESETS, _mime_free)}
   case.update(draw_common(draw, tier))
   return case
 
 
 @st.composite
 def ignore_cases(draw, tier):
-  nmod = draw(st.integers(1, 3))
+  nmod = draw(st.sampled_from([2, 3, 1]))
   modules = []
   for j in range(nmod):
-    leaves = draw(st.sampled_from([['w'], ['w', 'b'], ['b', 'w'], ['w', 'b', 's'], ['s']]))
+    leaves = draw(st.sampled_from([['w', 'b'], ['w'], ['b', 'w'], ['w', 'b', 's'], ['s']]))
     modules.append({'name': ['lin', 'lin/~/sub', 'emb'][j], 'leaves': leaves})
   pairs = [[m['name'], n] for m in modules for n in m['leaves']]
   mode = draw(st.sampled_from(['some', 'some', 'some', 'some', 'none', 'all']))
@@ -940,7 +1005,7 @@ def ignore_cases(draw, tier):
         out[m['name']][n] = draw(st.lists(elem, min_size=size, max_size=size))
     return out
 
-  nsteps = draw(st.sampled_from([1, 2, 2, 3, 3, 4] if tier == 'quick' else [1, 2, 3, 4, 6, 8]))
+  nsteps = draw(st.sampled_from([2, 3, 1, 4, 2, 3] if tier == 'quick' else [3, 2, 4, 6, 8, 1]))
   steps = [values(True) for _ in range(nsteps)]
   return {'alg': 'ignore_grads_haiku', 'modules': modules, 'ignore': ignore,
           'opt': draw(st.sampled_from(IG_OPTS)), 'lr_exp': draw(st.integers(0, 4)),
@@ -950,29 +1015,29 @@ def ignore_cases(draw, tier):
 CHECKS = [
     Check(name='agnostic_history', run=run_agnostic, strategy=agnostic_cases,
           labels=ag_labels, nontrivial=ag_nontrivial,
-          budget={'quick': 160, 'thorough': 2400}, time_share=1.3,
+          budget={'quick': 360, 'thorough': 4800}, time_share=1.3,
           doc='AgnosticFedAvg after every round: domain weights finite, >= 0, sum 1; window of '
               'constant length whose newest entry is the cohort\'s per-domain example count and '
               'whose older entries shifted by one (starved domains, window 1, never-used domain)'),
     Check(name='apfl_history', run=run_apfl, strategy=apfl_cases,
           labels=apfl_labels, nontrivial=apfl_nontrivial,
-          budget={'quick': 160, 'thorough': 2400}, time_share=1.0,
+          budget={'quick': 288, 'thorough': 4000}, time_share=1.5,
           doc='APFL after every round: every stored interpolation coefficient in [0,1] (client lr '
               'up to 2), client-state table == set of clients that have participated'),
     Check(name='hypcluster_history', run=run_hyp, strategy=hyp_cases,
           labels=hyp_labels, nontrivial=hyp_nontrivial,
-          budget={'quick': 160, 'thorough': 2400}, time_share=1.5,
+          budget={'quick': 320, 'thorough': 4800}, time_share=1.5,
           doc='HypCluster every round: reported cluster minimises the float64 reference loss; a '
               'cluster with examples == FedAvg round over exactly its clients; clusters without '
               'clients / examples keep params and optimizer state bit-identical'),
     Check(name='mimelite_history', run=run_mime, strategy=mime_cases,
           labels=mime_labels, nontrivial=mime_nontrivial,
-          budget={'quick': 160, 'thorough': 2400}, time_share=1.2,
+          budget={'quick': 320, 'thorough': 4800}, time_share=1.3,
           doc='MimeLite every round: clipped client norms <= bound, applied update norm <= '
               'server_lr * bound, update == float64 mean of per-client deltas clipped to the bound'),
     Check(name='ignore_grads_haiku', run=run_ignore, strategy=ignore_cases,
           labels=ig_labels, nontrivial=ig_nontrivial,
-          budget={'quick': 320, 'thorough': 4800}, time_share=0.7,
+          budget={'quick': 640, 'thorough': 9600}, time_share=0.6,
           doc='ignore_grads_haiku over successive apply() calls: ignored leaves bit-identical, '
               'other leaves and optimizer state bit-equal to the base optimizer on the filtered tree'),
 ]
